@@ -38,6 +38,29 @@ def variants(rng, da, aux):
     return out
 
 
+def norm(op, can, da):
+    """Canonical result with the comparisons the property leaves open removed: order of equal-Hs partitions, angles of
+    (near-)zero moment vectors, tied peak directions; tiny Stokes-drift components are compared against the drift speed."""
+    out = []
+    lead = [d for d in da.dims if d not in ("freq", "dir")]
+    for c in can:
+        if op in opcat.PART_HEADS:
+            c = opcat.sort_parts(c, opcat.PART_HEADS[op])
+        nm = c["name"].split(":")[-1]
+        if nm in ("dm", "dp", "dpm") and "freq" not in c["dims"]:
+            c = opcat.mask_positions(c, lead, opcat.weak_angle_positions(nm, da))
+        out.append(c)
+    return out
+
+
+def abs_tol(op, da):
+    if op in ("uss_x", "uss_y"):
+        return 1e-9 * float(da.spec.uss().max())
+    if op == "momd1":
+        return 1e-9 * float(da.spec.oned().max())
+    return 0.0
+
+
 def make_case(args):
     seed, icase = args
     rng = case_rng("C05", seed, icase)
@@ -83,7 +106,8 @@ def make_case(args):
             out.append(dict(op=op, variant="base", ambiguous="frequency-summed spectrum has tied maxima: any maximiser is a valid dp", icase=icase))
             continue
         try:
-            ref = opcat.canon(C[op](da, aux))
+            ref = norm(op, opcat.canon(C[op](da, aux)), da)
+            atol = abs_tol(op, da)
         except Exception as e:
             out.append(dict(op=op, variant="base", crash=f"{type(e).__name__}: {str(e)[:200]}", icase=icase))
             continue
@@ -93,11 +117,11 @@ def make_case(args):
             rec = dict(op=op, variant=tag, icase=icase, dims=list(da.dims), nd=nd, nf=nf)
             f32 = tag == "float32"
             try:
-                got = opcat.canon(C[op](v, aux))
+                got = norm(op, opcat.canon(C[op](v, aux)), da)
                 rel = 2e-4 if f32 else (3e-6 if op in opcat.FLOAT32_OUT else 1e-9)
                 if f32 and op in opcat.WATERSHED:
                     rel = 1e-5
-                rec["diff"] = opcat.compare(got, ref, rel=rel, coord_rel=1e-6 if f32 else 1e-12)
+                rec["diff"] = opcat.compare(got, ref, rel=rel, abs_=atol, coord_rel=1e-6 if f32 else 1e-12)
             except Exception as e:
                 rec["crash"] = f"{type(e).__name__}: {str(e)[:200]}"
             out.append(rec)
@@ -108,7 +132,7 @@ def make_case(args):
             vsh = da.isel(dir=shuf)
             rec = dict(op=op, variant="shuffled_storage", icase=icase, dims=list(da.dims), nd=nd, nf=nf)
             try:
-                got = opcat.canon(C[op](vsh, aux))
+                got = norm(op, opcat.canon(C[op](vsh, aux)), da)
                 rec["diff"] = opcat.compare(got, ref, rel=3e-6 if op in opcat.FLOAT32_OUT else 1e-9)
                 if rec["diff"]:
                     rec["note"] = "arbitrary (non-monotone) stored direction order"
